@@ -29,11 +29,6 @@ def exSchema : Schema where
 /-- non-vacuity of `WFschema` -/
 example : WFschema exSchema := by decide
 
-theorem encodeExd_length (s : Schema) (rows : List Row) :
-    (encodeExd s rows).length = 32 + 8 * rows.length + (((chunksOf s rows).map (·.2)).flatten).length := by
-  simp only [encodeExd, List.length_append, encodeExdHeader_length, encodeIndex_length]
-  simp [chunksOf]
-
 /-- `EXD::from_existing` on an encoded page returns the index `(row id, absolute chunk offset)` of
 every stored row, in order, and the whole file as data view. -/
 theorem c05_exd_index_roundtrip (s : Schema) (rows : List Row) (h : WFrows s rows) :
@@ -148,5 +143,50 @@ theorem c05_filename (name : Bytes) (l : Lang) (p : Page) :
     calculateFilename name (toModelLang l) (toModelPage p) = pageFileName name l p := by
   cases l <;> simp [calculateFilename, pageFileName, toModelLang, toModelPage, fmtNat, decimal,
     Nat.repr, getLanguageCode, Lang.suffix]
+
+/-- `GameData::read_excel_sheet_header`: a name listed in the root list is looked up in the archive
+under `exd/<lower-case name>.exh` and what is stored there is parsed as the header; a name that
+is not listed yields nothing (the archive is not even asked). -/
+theorem c05_sheet_lookup (extract : Bytes → Option Bytes) (entries : List (Bytes × Int)) (name : Bytes) :
+    (name ∈ entries.map (·.1) →
+      readExcelSheetHeader extract entries name = (extract (headerPath name)).bind Exh.fromExisting) ∧
+    (name ∉ entries.map (·.1) → readExcelSheetHeader extract entries name = none) := by
+  constructor
+  · intro h
+    cases hf : entries.find? (fun e => e.1 == name) with
+    | some e => simp only [readExcelSheetHeader, hf, sheetHeaderPath, headerPath]
+    | none =>
+      exfalso
+      obtain ⟨e, he, rfl⟩ := List.mem_map.mp h
+      have := List.find?_eq_none.mp hf e he
+      simp at this
+  · intro h
+    cases hf : entries.find? (fun e => e.1 == name) with
+    | none => simp only [readExcelSheetHeader, hf]
+    | some e =>
+      exfalso
+      have hm := List.mem_of_find?_eq_some hf
+      have hp := List.find?_some hf
+      simp only [beq_iff_eq] at hp
+      exact h (List.mem_map.mpr ⟨e, hm, hp⟩)
+
+/-- `GameData::read_excel_sheet`: page `k` of a sheet in language `l` is looked up under
+`exd/<name>_<start id of page k>[_<language code>].exd`. -/
+theorem c05_page_lookup (extract : Bytes → Option Bytes) (name : Bytes) (s : Schema) (l : Lang)
+    (k : Nat) (hk : k < s.pages.length) :
+    readExcelSheet extract name (toExh s) (toModelLang l) k =
+      match (extract (pagePath name l s.pages[k])).bind Exd.fromExisting with
+      | some exd => .ok exd
+      | none => .error .none := by
+  have hp : (toExh s).pages[k]? = some (toModelPage s.pages[k]) := by
+    simp [toExh, hk]
+  simp only [readExcelSheet, hp, pagePath, c05_filename]
+  cases (extract ([101, 120, 100, 47] ++ pageFileName name l s.pages[k])).bind Exd.fromExisting <;> rfl
+
+/-- non-vacuity of `c05_sheet_lookup` / `c05_page_lookup`: "Item" is listed in a root list with
+two entries; `exSchema` has a page 0 -/
+example : ([0x49, 0x74, 0x65, 0x6d] : Bytes) ∈
+    ([([0x41], 1), ([0x49, 0x74, 0x65, 0x6d], 2)] : List (Bytes × Int)).map (·.1) ∧
+    0 < exSchema.pages.length := by decide
 
 end Physis.C05
